@@ -10,6 +10,7 @@ from harness.explorer import Explorer
 from harness import collide as C
 from harness import protocol as P
 from harness import scenarios as S
+from harness.continuous import ContinuousWorld
 from harness.world import State, ep_snapshot, REQ_SENT_STATES, HarnessError
 
 ck = Check('C08', 'model_checking')
@@ -55,22 +56,22 @@ def _trigger_event(w, role, trig):
     return ('due', role, 0, trig[1])
 
 
-def build(sc):
+def build(sc, cls=None):
     confs = C.CONFIGS[sc['config']]()
     if sc['start'].startswith('empty0'):
-        w = S.new_world(confs)
+        w = S.new_world(confs, cls=cls)
         if sc['start'].endswith('cookie'):
             w.endpoints['B'].controller.cookie_threshold = -1
         w.sent_log, w.recv_log = [], []
         w.step(_trigger_event(w, sc['role'], sc['trigger']))
     elif sc['start'] == 'empty':
-        w = S.new_world(confs)
+        w = S.new_world(confs, cls=cls)
         w.sent_log, w.recv_log = [], []
         w.step(_trigger_event(w, sc['role'], sc['trigger']))
         w.step(('deliver', w.net[0].id))     # IKE_SA_INIT request
         w.step(('deliver', w.net[0].id))     # IKE_SA_INIT response -> IKE_AUTH request now in flight
     else:
-        w = S.established(confs)
+        w = S.established(confs, cls=cls)
         w.sent_log, w.recv_log = [], []
         w.step(_trigger_event(w, sc['role'], sc['trigger']))
     w.history = []
@@ -344,7 +345,8 @@ def run(i):
     sc = SCEN[i]
     ex = Explorer(lambda: build(sc), enabled, apply_event, monitors=MONITORS, extra_fn=extra,
                   abstraction_checks=10 if ck.quick else 40, replay_every=100 if ck.quick else 400,
-                  max_states=30000 if ck.quick else 400000, label='%s/%s' % (sc['kind'], sc['role']), cover=COVER)
+                  max_states=30000 if ck.quick else 400000, label='%s/%s' % (sc['kind'], sc['role']), cover=COVER,
+                  continuous_init_fn=lambda: build(sc, cls=ContinuousWorld))
     ex.run()
     return ex.summary()
 
@@ -377,7 +379,8 @@ def main():
         print('  scenario', stats[-1])
     m = merge_stats(stats)
     ck.coverage.update(states=m['states'], transitions=m['transitions'], max_depth=m['max_depth'],
-                       traces_validated_against_impl=m['replays_validated'], abstraction_checks=m['abstraction_checks'],
+                       traces_validated_against_impl=m['replays_validated'],
+                       traces_replayed_with_the_event_loop_never_left=m.get('continuous_validated', 0), abstraction_checks=m['abstraction_checks'],
                        caps_hit=m['caps_hit'], exhaustive=m['completed'], oracle_applicability=dict(sorted(cover.items())),
                        per_scenario=stats, samples=samples,
                        bounds='per exchange kind and role: duplicates<=%(dup)d, losses<=%(drop)d, retransmission '
